@@ -39,11 +39,16 @@ def configs(tier):
     t = tier == "thorough"
     mm = 4 if t else 3
     L = []
+    # the quick tier runs a representative subset (every mode, 2-5 dims, x as variable, aggregation, fused dims,
+    # square meshes, all bins kinds) so that fewer JVMs are started; thorough runs every configuration
+    quick_set = {"L2", "L3", "L3x", "L4", "L4g", "L5", "H3", "H4", "G2a", "G3", "G4"}
 
     def add(name, q, th, **kw):
         """q, th = (Sub, Stride) for quick / thorough; Stride must stay below the size of the case-number space"""
         c = dict(BASE)
         c.update(kw)
+        if not t and name not in quick_set:
+            return
         sub, stride = th if t else q
         if stride >= total_cases(c):
             raise tlc.TLCError("configuration %s: Stride %d >= %d case numbers" % (name, stride, total_cases(c)))
@@ -53,8 +58,8 @@ def configs(tier):
     # --- lines
     add("L2", (1, 919), (1, 37), Sizes=[3, 3], MaxMapped=1, Orders=O3, Joins=B2, Pals=B2)
     add("L3", (1, 2521), (1, 83), Sizes=[2, 2, 2], MaxMapped=2, Fuse=True, Orders=O3, Joins=B2, Pals=B2)
-    add("L3x", (1, 29819), (1, 953), Sizes=[2, 2, 2], MaxMapped=2, XVar=True, Orders=O3, Joins=B2, Pals=[False])
-    add("L4", (11, 2503), (1, 859), Sizes=[3, 2, 3, 2], MaxMapped=3, Fuse=True, MaskFam="struct", Orders=O3, Joins=B2, Pals=B2)
+    add("L3x", (1, 19993), (1, 953), Sizes=[2, 2, 2], MaxMapped=2, XVar=True, Orders=O3, Joins=B2, Pals=[False])
+    add("L4", (9, 2503), (1, 859), Sizes=[3, 2, 3, 2], MaxMapped=3, Fuse=True, MaskFam="struct", Orders=O3, Joins=B2, Pals=B2)
     add("L4x", (19, 100003), (1, 54269), Sizes=[2, 3, 2, 3], MaxMapped=3, Fuse=True, MaskFam="struct", XVar=True, Orders=O3, Joins=B2)
     add("L4g", (3, 10007), (1, 971), Sizes=[2, 3, 2, 3], MaxMapped=2, Fuse=True, MaskFam="struct", Orders=["none", "sub"], Joins=B2,
         Aggs=["all", "one"], Methods=M2, Errs=E3)
@@ -64,13 +69,13 @@ def configs(tier):
     # --- heat maps
     add("H2", (1, 7), (1, 1), Sizes=[2, 3], Mode="heat", MaxMapped=1, Aggs=["auto"], Pals=B2)
     add("H3", (1, 1229), (1, 37), Sizes=[3, 2, 2], Mode="heat", MaxMapped=1, MaskFam="all", Orders=O3, Aggs=["auto"], Pals=B2)
-    add("H4", (1, 1033), (1, 31), Sizes=[3, 2, 2, 3], Mode="heat", MaxMapped=2, Fuse=True, MaskFam="struct", Orders=O3,
+    add("H4", (1, 691), (1, 31), Sizes=[3, 2, 2, 3], Mode="heat", MaxMapped=2, Fuse=True, MaskFam="struct", Orders=O3,
         Aggs=["auto", "all"], Methods=M2, Pals=B2)
     add("H5", (1, 11777), (1, 313), Sizes=[2, 3, 2, 3, 2], Mode="heat", MaxMapped=3, Fuse=True, MaskFam="struct", Orders=O3,
         Aggs=["auto", "all"], Methods=M2, Pals=B2)
     # --- histograms
     add("G2", (1, 6323), (1, 203), Sizes=[3, 3], Mode="hist", MaxMapped=1, Orders=O3, Dens=B2, Bins=BINS, Pals=B2)
-    add("G3", (7, 4001), (1, 899), Sizes=[2, 3, 3], Mode="hist", MaxMapped=2, Fuse=True, MaskFam="struct", Orders=O3, Dens=B2, Bins=BINS, Pals=B2)
+    add("G3", (5, 4001), (1, 899), Sizes=[2, 3, 3], Mode="hist", MaxMapped=2, Fuse=True, MaskFam="struct", Orders=O3, Dens=B2, Bins=BINS, Pals=B2)
     if HIST_ALL_MAPPED:
         add("G2a", (1, 1009), (1, 97), Sizes=[3, 2], Mode="hist", MaxMapped=2, HistAll=True, Orders=O3, Dens=B2, Bins=BINS)
     add("G4", (113, 4001), (4, 4001), Sizes=[2, 3, 2, 3], Mode="hist", MaxMapped=3, Fuse=True, MaskFam="struct", Orders=O3, Dens=B2, Bins=BINS)
@@ -87,9 +92,9 @@ def exhaustive_configs(tier):
         L.append((name, c, cov))
 
     # with -coverage (vacuity check of the actions); TLC does not cache under coverage, so these stay small
-    add("XL", True, Sizes=[2, 2, 2], MaxMapped=1, Orders=["sub"], Joins=B2)
+    add("XL", True, Sizes=[2, 2, 2], MaxMapped=1, Orders=["sub"], Joins=[True])
     add("XH", True, Sizes=[2, 2, 2], Mode="heat", MaxMapped=1, Orders=["sub"], Aggs=["auto"])
-    add("XG", True, Sizes=[2, 2, 2], Mode="hist", MaxMapped=1, Dens=B2, Bins=["n4"])
+    add("XG", True, Sizes=[2, 2, 2], Mode="hist", MaxMapped=1, Dens=[True], Bins=["n4"])
     if tier == "thorough":
         add("XL2", False, Sizes=[2, 2, 2], MaxMapped=2, Fuse=True, Orders=O3, Joins=B2)
         add("XLg", False, Sizes=[2, 2, 2], MaxMapped=1, Orders=["none", "sub"], Joins=B2, Aggs=["all"], Methods=M2)
@@ -209,22 +214,25 @@ def run(rep):
     seed = int(rep.seed) % 100003        # keeps the hash arithmetic of Init inside 32 bits
     emit_cfgs = configs(tier)
     ex_cfgs = exhaustive_configs(tier)
-    nbugs = len(BUGS) if tier == "thorough" else 5
+    bugs = BUGS if tier == "thorough" else [b for b in BUGS if b[0] in ("domBeforeDrop", "maskYOnly", "joinInverted")]
 
     t0 = time.time()
     jobs = {}
-    par = max(2, common.NCPU - 2)            # concurrent TLC processes (the emitting ones are single-worker)
-    exw = max(1, common.NCPU // 3)
+    quick = tier != "thorough"
+    par = max(2, common.NCPU - (0 if quick else 2))   # concurrent TLC processes (the emitting ones are single-worker)
+    exw = max(2, common.NCPU // 4) if quick else max(1, common.NCPU // 3)
+    # quick: every run lasts a second or two - C1-only JIT and few GC threads start faster and do not fight for cores
+    jopts = ("-XX:TieredStopAtLevel=1", "-XX:ParallelGCThreads=2", "-XX:CICompilerCount=1") if quick else ()
     with cf.ThreadPoolExecutor(max_workers=par) as pool:
         for name, c, cov in sorted(ex_cfgs, key=lambda x: x[2]):       # the long ones first
-            jobs[("ex", name)] = pool.submit(run_tlc, "ex_" + name, dict(c, Seed=seed), False, workers=exw, coverage=cov)
+            jobs[("ex", name)] = pool.submit(run_tlc, "ex_" + name, dict(c, Seed=seed), False, workers=exw, coverage=cov, java_opts=jopts)
         for name, c in sorted(emit_cfgs, key=lambda x: -len(x[1]["Sizes"])):
-            jobs[("emit", name)] = pool.submit(run_tlc, name, dict(c, Seed=seed), True, workers=1)
-        for bug, kw, _ in BUGS[:nbugs]:
+            jobs[("emit", name)] = pool.submit(run_tlc, name, dict(c, Seed=seed), True, workers=1, java_opts=jopts)
+        for bug, kw, _ in bugs:
             c = dict(BASE)
             c.update(kw)
             c["Bug"] = bug
-            jobs[("bug", bug)] = pool.submit(run_tlc, "bug_" + bug, c, False, workers=1)
+            jobs[("bug", bug)] = pool.submit(run_tlc, "bug_" + bug, c, False, workers=1, java_opts=jopts)
         results = {k: f.result() for k, f in jobs.items()}
     rep.extra["wall_tlc_s"] = round(time.time() - t0, 1)
 
@@ -241,11 +249,11 @@ def run(rep):
             if cov and r.coverage.get(act, (0, 0))[1] == 0:
                 raise tlc.TLCError("vacuous: action %s never taken in %s" % (act, name))
     # 2. the invariants reject the buggy variants
-    for bug, kw, expect in BUGS[:nbugs]:
+    for bug, kw, expect in bugs:
         r = results[("bug", bug)]
         if r.violated not in expect:
             raise tlc.TLCError("self-test failed: Bug=%s is not rejected (violated=%r, expected one of %s)" % (bug, r.violated, sorted(expect)))
-    rep.note("self-test: TLC rejects the buggy variants " + ", ".join(b for b, _, _ in BUGS[:nbugs]))
+    rep.note("self-test: TLC rejects the buggy variants " + ", ".join(b for b, _, _ in bugs))
     # 3. emitted cases -> real code
     cases = []
     for name, c in emit_cfgs:
